@@ -131,45 +131,102 @@ class Index:
                     out.append(t)
         return out
 
+    def _class_literal(self, key, expr, depth=0):
+        """a literal ast (constants, tuples/lists of literals) equal to the class-body expression `expr` of class `key`:
+        literals, Name / Class.NAME references to other class-level literals, and + of tuples; None when it is not one"""
+        import ast, copy
+        if depth > 6:
+            return None
+        if isinstance(expr, ast.Constant):
+            return expr
+        if isinstance(expr, ast.UnaryOp) and isinstance(expr.operand, ast.Constant):
+            return expr
+        if isinstance(expr, (ast.Tuple, ast.List)):
+            elts = [self._class_literal(key, e, depth + 1) for e in expr.elts]
+            if any(e is None for e in elts):
+                return None
+            return ast.copy_location(type(expr)(elts=[copy.deepcopy(e) for e in elts], ctx=ast.Load()), expr)
+        if isinstance(expr, ast.Attribute) and isinstance(expr.value, ast.Name):
+            k2 = (key[0], expr.value.id)
+            if k2 in self.classes:
+                return self._class_binding(k2, expr.attr, depth + 1)
+            return None
+        if isinstance(expr, ast.Name):
+            return self._class_binding(key, expr.id, depth + 1, own_only=True)
+        if isinstance(expr, ast.BinOp) and isinstance(expr.op, ast.Add):
+            a, b = self._class_literal(key, expr.left, depth + 1), self._class_literal(key, expr.right, depth + 1)
+            if isinstance(a, ast.Tuple) and isinstance(b, ast.Tuple):
+                return ast.copy_location(ast.Tuple(elts=list(a.elts) + list(b.elts), ctx=ast.Load()), expr)
+            if isinstance(a, ast.List) and isinstance(b, ast.List):
+                return ast.copy_location(ast.List(elts=list(a.elts) + list(b.elts), ctx=ast.Load()), expr)
+        return None
+
+    def _class_binding(self, key, name, depth=0, own_only=False):
+        import ast
+        for k in ([key] if own_only else self.mro(key)):
+            cdef = self.classes.get(k)
+            if cdef is None:
+                continue
+            found = None
+            for st in cdef.body:
+                if isinstance(st, ast.Assign) and len(st.targets) == 1 and isinstance(st.targets[0], ast.Name) and st.targets[0].id == name:
+                    found = st          # the last binding in the class body wins
+            if found is not None:
+                return self._class_literal(k, found.value, depth + 1)
+        return None
+
     def class_constants(self, key) -> dict:
-        """name -> ast.Constant for class-body `NAME = <literal>` bindings seen through the MRO of `key` (nearest class wins),
+        """name -> literal ast for class-body `NAME = <literal>` bindings seen through the MRO of `key` (nearest class wins),
         excluding names that some method of those classes assigns on the instance"""
         import ast
-        out = {}
+        names = []
         assigned = set()
         for k in self.mro(key):
             cdef = self.classes.get(k)
             if cdef is None:
                 continue
             for st in cdef.body:
-                if isinstance(st, ast.Assign) and len(st.targets) == 1 and isinstance(st.targets[0], ast.Name):
-                    v = st.value
-                    if isinstance(v, ast.Constant) or (isinstance(v, ast.UnaryOp) and isinstance(v.operand, ast.Constant)):
-                        out.setdefault(st.targets[0].id, v)
-                    else:
-                        out.setdefault(st.targets[0].id, None)
+                if isinstance(st, ast.Assign) and len(st.targets) == 1 and isinstance(st.targets[0], ast.Name) and st.targets[0].id not in names:
+                    names.append(st.targets[0].id)
             for n in ast.walk(cdef):
                 if isinstance(n, ast.Attribute) and isinstance(n.ctx, (ast.Store, ast.Del)) and isinstance(n.value, ast.Name) and n.value.id in ('self', 'cls'):
                     assigned.add(n.attr)
-                if isinstance(n, ast.Call) and isinstance(n.func, ast.Name) and n.func.id == 'setattr':
+                if isinstance(n, ast.Call) and isinstance(n.func, ast.Name) and n.func.id == 'setattr' and not (len(n.args) >= 2 and isinstance(n.args[1], ast.Constant)):
                     assigned.add('*')
-        if '*' in assigned:
-            return {}
-        return {k_: v for k_, v in out.items() if v is not None and k_ not in assigned}
+        out = {}
+        for nm in names:
+            if nm in assigned:
+                continue
+            v = self._class_binding(key, nm)
+            if v is not None:
+                out[nm] = v
+        out['*dynamic*'] = '*' in assigned
+        return out
 
-    def specialised(self, key, meth):
-        """the method `meth` as an instance of exactly class `key` runs it: found through the MRO, with `self.NAME` replaced by the
-        class-level literal NAME resolves to, tests on those literals decided and getattr(obj, 'literal') folded to obj.literal"""
+    def specialised(self, key, meth, func=None):
+        """the method `meth` (or the given definition `func`) as an instance of exactly class `key` runs it: found through the
+        MRO, with `self.NAME` replaced by the class-level literal NAME resolves to for that class, tests on those literals
+        decided, loops over literal tables written out and getattr/setattr with literal names folded"""
         import ast, copy
-        tgt = self.lookup_method(key, meth)
-        if tgt is None:
-            return None
-        consts = self.class_constants(key)
-        f = copy.deepcopy(tgt[2])
+        if func is None:
+            tgt = self.lookup_method(key, meth)
+            if tgt is None:
+                return None
+            func = tgt[2]
+        consts = dict(self.class_constants(key))
+        dynamic = consts.pop('*dynamic*', False)
+        f = copy.deepcopy(func)
         if not consts:
             return f
         a = f.args.posonlyargs + f.args.args
         sname = a[0].arg if a else 'self'
+        # a setattr with a computed name may rebind any attribute: only plain constants of the class are trusted then
+        if dynamic:
+            written = {n.args[1].value for k in self.mro(key) if self.classes.get(k) is not None for n in ast.walk(self.classes[k])
+                       if isinstance(n, ast.Call) and isinstance(n.func, ast.Name) and n.func.id == 'setattr' and len(n.args) >= 2 and isinstance(n.args[1], ast.Constant)}
+            consts = {k_: v for k_, v in consts.items() if k_.isupper() or k_.startswith('_') and k_.lstrip('_').isupper()}
+            consts = {k_: v for k_, v in consts.items() if k_ not in written}
+        cls_names = {k[1] for k in self.mro(key)}
 
         class Sub(ast.NodeTransformer):
             def visit_Attribute(self, n):
@@ -177,17 +234,14 @@ class Index:
                 if isinstance(n.ctx, ast.Load) and isinstance(n.value, ast.Name) and n.value.id == sname and n.attr in consts:
                     return ast.copy_location(copy.deepcopy(consts[n.attr]), n)
                 return n
-
-            def visit_Call(self, n):
-                self.generic_visit(n)
-                if isinstance(n.func, ast.Name) and n.func.id == 'getattr' and len(n.args) == 2 and not n.keywords \
-                        and isinstance(n.args[1], ast.Constant) and isinstance(n.args[1].value, str) and n.args[1].value.isidentifier():
-                    return ast.copy_location(ast.Attribute(value=n.args[0], attr=n.args[1].value, ctx=ast.Load()), n)
-                return n
         f = Sub().visit(f)
         from . import normalise
         f.body = normalise._prune_constant_tests(f.body) or [ast.Pass()]
         ast.fix_missing_locations(f)
+        try:
+            normalise.unroll_tables(f)
+        except Exception:
+            pass
         return f
 
     def is_property(self, key, name):
